@@ -265,6 +265,29 @@ func predicate(tx *types.Transaction, input []byte, off int, pos int) (string, s
 	if len(consumed) > types.MAX_TX_SIZE {
 		return "accepted transaction larger than MAX_TX_SIZE", "tx-oversize-accepted"
 	}
+	if len(tx.Sigs) > constants.TX_MAX_SIG_SIZE {
+		return "accepted transaction with more than TX_MAX_SIG_SIZE signature entries", "tx-too-many-sigs-accepted"
+	}
+	if shape == "ont" {
+		// the encoding determined by the parsed FIELDS (written with the repository's own sink / payload writers):
+		// an accepted byte string must be that encoding, otherwise the same transaction has a second encoding
+		sink := common.NewZeroCopySink(nil)
+		sink.WriteByte(tx.Version)
+		sink.WriteByte(byte(tx.TxType))
+		sink.WriteUint32(tx.Nonce)
+		sink.WriteUint64(tx.GasPrice)
+		sink.WriteUint64(tx.GasLimit)
+		sink.WriteBytes(tx.Payer[:])
+		tx.Payload.Serialization(sink)
+		sink.WriteVarUint(0)
+		sink.WriteVarUint(uint64(len(tx.Sigs)))
+		for i := range tx.Sigs {
+			tx.Sigs[i].Serialization(sink)
+		}
+		if !bytes.Equal(sink.Bytes(), consumed) {
+			return "accepted bytes are not the canonical encoding of the parsed fields", "tx-noncanonical-encoding-accepted"
+		}
+	}
 	h := tx.Hash()
 	if shape == "eip" {
 		src := common.NewZeroCopySource(consumed[2:])
@@ -405,6 +428,35 @@ func corpus() []string {
 		s.WidenIdx, s.WidenTo = w, 3
 		out, _, _ := s.Encode()
 		add("raw", out)
+	}
+	// ALL single-byte mutations (five replacement values per position) of one invoke, one deploy and one EIP-155 transaction
+	r := hx.NewRand(19)
+	bases := [][]byte{}
+	inv := &g.OntSpec{Ty: 0xd1, SigCount: -1, WidenIdx: -1, Nonce: 7, GasPrice: 2500, GasLimit: 20000, Code: []byte{1, 2, 3},
+		Sigs: [][2][]byte{{{0x40, 0xaa}, {0x21, 0xbb, 0xac}}}}
+	b0, _, _ := inv.Encode()
+	bases = append(bases, b0)
+	dep := &g.OntSpec{Ty: 0xd0, SigCount: -1, WidenIdx: -1, Code: []byte{0x51, 0x52}, VM: 1,
+		Strs: [5][]byte{[]byte("n"), []byte("v"), []byte("a"), []byte("e"), []byte("d")}}
+	b1, _, _ := dep.Encode()
+	bases = append(bases, b1)
+	etx, _ := g.RandEip(r, 0)
+	otx, err := types.TransactionFromEIP155(etx)
+	if err != nil {
+		panic(err)
+	}
+	bases = append(bases, otx.Raw)
+	for _, b := range bases {
+		for p := range b {
+			for _, v := range []byte{b[p] ^ 1, b[p] ^ 0x80, 0x00, 0xff, 0xfd} {
+				if v == b[p] {
+					continue
+				}
+				m := append([]byte{}, b...)
+				m[p] = v
+				c = append(c, "T raw "+g.ToBx(m)+" "+g.Oracle(m, []int{0}))
+			}
+		}
 	}
 	return c
 }
